@@ -112,7 +112,8 @@ PROGRAMS = {
         ["set_mag", [S("bx", lo=1, hi=5), 0.0, S("bz", lo=1, hi=40)]],
         ["declare", "mw", "mw_global"], ["config_slm", ["q1"]],
         ["add", "mw", ["cp", 20, S("a0", lo=0, hi=5), S("d0", "fix", lo=-20, hi=20), "PH:p0"]],
-        ["phase_shift", "PH:s0", ["q0"], "XY"], ["add", "mw", ["cp", 12, S("a1", lo=0, hi=5), 0.0, 1.0]], ["measure", "XY"]]),
+        ["phase_shift", "PH:s0", ["q0"], "XY"], ["add", "mw", ["cp", 12, S("a1", lo=0, hi=5), 0.0, 1.0]],
+        ["phase_shift", "PH:s1", [], "XY"], ["add", "mw", ["cp", 12, 1.0, 0.0, 0.5]], ["measure", "XY"]]),
     "layout_reg": dict(device="mock", reg="layout3", prog=[
         ["declare", "l", "raman_local", ["q0", "q2"]],
         ["add", "l", ["cp", 20, S("a0", lo=0, hi=5), S("d0", "fix", lo=-20, hi=20), "PH:p0"]],
@@ -266,6 +267,20 @@ def h_roundtrip(shape):
     P = PROGRAMS[shape["program"]]
     if shape.get("upto"):
         P = dict(P, prog=P["prog"][:shape["upto"]])
+    inner = _h_roundtrip(shape, P)
+
+    def h(inp):
+        # (kwmode: the very same program with every argument passed by keyword)
+        l2.KW_MODE[0] = bool(shape.get("kwmode"))
+        try:
+            return inner(inp)
+        finally:
+            l2.KW_MODE[0] = False
+
+    return h
+
+
+def _h_roundtrip(shape, P):
 
     def h(inp):
         stubs.bind(inp)
@@ -335,6 +350,19 @@ def var_values(inp, P, tag):
 
 
 def h_param_roundtrip(shape):
+    inner = _h_param_roundtrip(shape)
+
+    def h(inp):
+        l2.KW_MODE[0] = bool(shape.get("kwmode"))
+        try:
+            return inner(inp)
+        finally:
+            l2.KW_MODE[0] = False
+
+    return h
+
+
+def _h_param_roundtrip(shape):
     P = PARAM_PROGRAMS[shape["program"]]
 
     def h(inp):
@@ -396,6 +424,11 @@ def kernels(tier):
         ks.append(("roundtrip", dict(program=name, codec="legacy")))
     for codec in ("abstract", "legacy"):
         ks.append(("roundtrip", dict(program="at_rest_b", codec=codec, relevel=True)))
+        for name in ("basic", "at_rest_a", "eom", "eom_defaults", "dmm", "slm_ising", "xy") if tier != "quick" else ("basic", "eom", "dmm", "xy"):
+            ks.append(("roundtrip", dict(program=name, codec=codec, kwmode=True)))
+    for name in ("mappable_shift_all", "vars_dmm", "vars_eom", "vars_basic"):
+        for codec in ("abstract", "legacy"):
+            ks.append(("param", dict(program=name, codec=codec, kwmode=True)))
     for name in PARAM_PROGRAMS:
         ks.append(("param", dict(program=name, codec="abstract")))
         ks.append(("param", dict(program=name, codec="legacy")))
